@@ -1330,6 +1330,10 @@ Section P.
     - pose proof (run_acts_ok acts st HI) as H. destruct (run_acts prog acts st) as [st1 ok]. exact H.
   Qed.
 
+  Lemma final_snoc' : forall pre st x,
+    final prog nobs st (pre ++ [x]) = fst (step prog nobs (final prog nobs st pre) x).
+  Proof. induction pre as [|y t IH]; intros st x; simpl; auto. Qed.
+
   Lemma final_ok : forall ops st, Inv st -> no_kill ops = true -> Inv (final prog nobs st ops).
   Proof.
     induction ops as [|x t IH]; intros st HI Hn; simpl; auto.
@@ -1425,6 +1429,92 @@ Section P.
   Proof.
     intros st k Hk Hd Hf. unfold read_top, read_comp. unfold ncomp in *. destruct (length prog) as [|m]; [lia|].
     simpl. rewrite Hd. simpl. rewrite Hf, Z.eqb_refl. reflexivity.
+  Qed.
+
+  (* ---------------------------------------------------------------- owner collection *)
+  (* the liveness map after collecting owner o *)
+  Definition al_kill (al : Z -> bool) (o : Z) : Z -> bool := fun o' => if o' =? o then false else al o'.
+
+  (* an evaluation none of whose reads is on owner o, and whose Computable reads are unaffected,
+     gives the same result after o is collected *)
+  Lemma pev_kill : forall al sto o j e,
+    (forall s x, In (s, x) (preads (den al sto) al sto j e) -> ownof s <> o /\ dsrc (al_kill al o) sto s = x) ->
+    pev (den (al_kill al o) sto) (al_kill al o) sto j e = pev (den al sto) al sto j e.
+  Proof.
+    intros al sto o j. induction e as [z|o' nm|k|a IHa b IHb|c IHc a IHa b IHb]; simpl; intros H; auto.
+    - unfold al_kill at 1. destruct (al o') eqn:E.
+      + destruct (H (SObs o' nm) (sto o' nm) (or_introl eq_refl)) as [Hne _]. simpl in Hne.
+        destruct (o' =? o) eqn:E2; [apply Z.eqb_eq in E2; contradiction|reflexivity].
+      + destruct (o' =? o); reflexivity.
+    - unfold al_kill at 1. destruct (k <? j)%nat eqn:E1; simpl in *; [|reflexivity].
+      destruct (al (cown k)) eqn:E2.
+      + destruct (H (SComp k) (den al sto k) (or_introl eq_refl)) as [Hne Hv]. simpl in Hne, Hv.
+        destruct (cown k =? o) eqn:E3; [apply Z.eqb_eq in E3; contradiction|exact Hv].
+      + destruct (cown k =? o); reflexivity.
+    - rewrite IHa, IHb; auto; intros; apply H; apply in_or_app; auto.
+    - rewrite IHc by (intros; apply H; apply in_or_app; auto).
+      destruct (pev (den al sto) al sto j c =? 0).
+      + apply IHb. intros. apply H. apply in_or_app. auto.
+      + apply IHa. intros. apply H. apply in_or_app. auto.
+  Qed.
+
+  (* "the last evaluation of k read nothing of owner o, directly or through the Computables it read" *)
+  Fixpoint indepf (f : nat) (st : state) (o : Z) (k : nat) : bool :=
+    match f with
+    | O => false
+    | S f' => forallb (fun p => negb (ownof (fst p) =? o) &&
+                                match fst p with SComp k' => indepf f' st o k' | SObs _ _ => true end)
+                      (flat (parents st k))
+    end.
+
+  Lemma den_kill_indep : forall st o, Inv st -> forall f k, (k < f)%nat -> (k < n)%nat ->
+    dirty st k = false -> indepf f st o k = true ->
+    den (al_kill (alive st) o) (store st) k = den (alive st) (store st) k.
+  Proof.
+    intros st o [HG HR]. induction f as [|f IH]; intros k Hkf Hkn Hd Hi; [lia|].
+    simpl in Hi. rewrite forallb_forall in Hi.
+    pose proof (g_clean_first _ HG k Hd) as Hf.
+    destruct (RD_det _ _ _ _ (HR k Hkn Hf) (store st)) as [H1 H2].
+    { intros s x H. exact (g_clean_val _ HG k s x Hd H). }
+    rewrite (den_unfold (al_kill (alive st) o)), (den_unfold (alive st)).
+    apply pev_kill. intros s x Hin. apply H2 in Hin.
+    specialize (Hi (s, x) Hin). simpl in Hi. apply andb_true_iff in Hi. destruct Hi as [Hi1 Hi2].
+    split.
+    - apply negb_true_iff in Hi1. apply Z.eqb_neq. exact Hi1.
+    - pose proof (g_clean_val _ HG k s x Hd Hin) as Hv. destruct s as [o' nm|k']; [exact Hv|].
+      simpl. simpl in Hv. rewrite <- Hv. apply IH; auto.
+      + pose proof (g_par_down _ HG k k' x Hin). lia.
+      + pose proof (g_par_down _ HG k k' x Hin). lia.
+      + exact (g_clean_par _ HG k k' x Hd Hin).
+  Qed.
+
+  (* collecting an owner does not make a clean Computed stale unless its last evaluation read that owner
+     (directly or through the chain): right after the collection it still returns what its function
+     returns on the current store with the current live owners *)
+  Lemma never_stale_after_kill : forall init pre o k, no_kill pre = true -> (k < n)%nat ->
+    let st := final prog nobs (install prog (init_state init)) pre in
+    let st' := final prog nobs (install prog (init_state init)) (pre ++ [Kill o]) in
+    cown k <> o -> dirty st k = false -> indepf n st o k = true ->
+    alive st' (cown k) = true /\
+    snd (read_top prog st' k) = den (alive st') (store st') k.
+  Proof.
+    intros init pre o k Hn Hk st st' Hne Hd Hi.
+    pose proof (reach_ok init pre Hn) as HI. fold st in HI.
+    assert (Est : st' = fst (step prog nobs st (Kill o))) by (unfold st'; rewrite final_snoc'; reflexivity).
+    unfold step in Est. rewrite (g_alive _ (proj1 HI) o) in Est. cbn [fst] in Est.
+    assert (Ea : alive st' = al_kill (alive st) o) by (rewrite Est; reflexivity).
+    assert (Es : store st' = store st) by (rewrite Est; reflexivity).
+    assert (Ed : dirty st' k = false) by (rewrite Est; exact Hd).
+    assert (Ef : first st' k = false) by (rewrite Est; simpl; exact (g_clean_first _ (proj1 HI) k Hd)).
+    assert (Ev : value st' k = value st k) by (rewrite Est; reflexivity).
+    split.
+    - rewrite Ea. unfold al_kill. destruct (cown k =? o) eqn:E; [apply Z.eqb_eq in E; contradiction|].
+      apply (g_alive _ (proj1 HI)).
+    - rewrite (read_cached_noop st' k Hk Ed Ef). simpl. rewrite Ev, Ea, Es.
+      rewrite (den_kill_indep st o HI n k Hk Hk Hd Hi).
+      destruct HI as [HG HR]. symmetry.
+      apply (RD_det _ _ _ _ (HR k Hk (g_clean_first _ HG k Hd)) (store st)).
+      intros s x H. exact (g_clean_val _ HG k s x Hd H).
   Qed.
 
   (* never stale: after any history of assignments, reads and writer Computeds, reading computed k
